@@ -200,6 +200,38 @@ pub fn generate(g: &mut Gen) {
             }
         }
     }
+    // … and convolutions / deconvolutions with rectangular kernels (one row, one column, 2x3), top level and inside a block:
+    // the state kept for a kernel has the kernel's extents
+    {
+        use crate::ops::net::{Build, InnerSpec, NetSpec};
+        let opts = [OptSpec::Sgd(0.05, Some(0.01)), OptSpec::Sgdm(0.05, 0.9, 0.1, None), OptSpec::Adam(0.01, 0.9, 0.999, 1e-8, None),
+            OptSpec::AdamW(0.01, 0.9, 0.999, 1e-8, 0.05), OptSpec::Rmsprop(0.01, 0.9, 1e-8, Some(0.01), Some(0.5), true)];
+        for (oi, o) in opts.iter().enumerate() {
+            for (ki, (k, p_)) in [((1usize, 3usize), (0usize, 1usize)), ((3, 1), (1, 0)), ((2, 3), (0, 1))].iter().enumerate() {
+                if !g.ctx.thorough() && (oi + ki) % 2 == 1 { continue; }
+                let (h, w) = (4usize, 5usize);
+                let oh = h + 2 * p_.0 - k.0 + 1;
+                let ow = w + 2 * p_.1 - k.1 + 1;
+                let conv = InnerSpec::Conv { filters: 2, act: "tanh".into(), k: *k, s: (1, 1), p: *p_, d: (1, 1), dropout: None, ks: (0..2).map(|_| g.tensor_of(&Shape::Triple(1, k.0, k.1), false)).collect() };
+                let dh = oh - 2 * p_.0 + k.0 - 1;
+                let dw = ow - 2 * p_.1 + k.1 - 1;
+                let deconv = InnerSpec::Deconv { filters: 1, act: "tanh".into(), k: *k, s: (1, 1), p: *p_, dropout: None, ks: vec![g.tensor_of(&Shape::Triple(2, k.0, k.1), false)] };
+                let head = InnerSpec::Dense { out: 2, act: "linear".into(), bias: true, dropout: None, w: g.tensor_of(&Shape::Double(2, dh * dw), false), b: Some(g.tensor_of(&Shape::Single(2), false)) };
+                let net = NetSpec { input: Shape::Triple(1, h, w), builds: vec![Build::Layer(conv), Build::Layer(deconv), Build::Layer(head)],
+                    skipacc: "add".into(), loopacc: "mean".into(), opt: Some(o.clone()), obj: "mse".into(), clamp: None };
+                let s: Vec<String> = (0..3).map(|_| format!("{} {}", qt(&g.tensor_of(&Shape::Triple(1, h, w), false)), qt(&g.tensor_of(&Shape::Single(2), false)))).collect();
+                g.push(format!("net {} learn 3 {} 0 2 2 0", net.token(), s.join(" ")), Tol::Loose, &format!("network/{}/rectangular-kernels", o.kind()), true);
+                // the same kernels inside a shape-preserving block (only 'same' geometry keeps the shape)
+                if k.0 % 2 == 1 && k.1 % 2 == 1 {
+                    let same = InnerSpec::Conv { filters: 1, act: "tanh".into(), k: *k, s: (1, 1), p: ((k.0 - 1) / 2, (k.1 - 1) / 2), d: (1, 1), dropout: None, ks: vec![g.tensor_of(&Shape::Triple(1, k.0, k.1), false)] };
+                    let head2 = InnerSpec::Dense { out: 2, act: "linear".into(), bias: true, dropout: None, w: g.tensor_of(&Shape::Double(2, h * w), false), b: Some(g.tensor_of(&Shape::Single(2), false)) };
+                    let netb = NetSpec { input: Shape::Triple(1, h, w), builds: vec![Build::Feedback { inner: vec![same], loops: 2, inskips: false, outskips: false, acc: "mean".into() }, Build::Layer(head2)],
+                        skipacc: "add".into(), loopacc: "mean".into(), opt: Some(o.clone()), obj: "mse".into(), clamp: None };
+                    g.push(format!("net {} learn 3 {} 0 2 2 0", netb.token(), s.join(" ")), Tol::Loose, &format!("network/{}/rectangular-kernels/block", o.kind()), true);
+                }
+            }
+        }
+    }
     // out-of-range slot: refused
     let p = params_for(g, 0);
     let grad = g.tensor_of(&Shape::Double(2, 3), false);
